@@ -1,8 +1,8 @@
-(* What is proved about the executable checker of C12. *)
+(* The executable checker of C12 accepts the model, for every history and every cache size. *)
 From Coq Require Import String.
 From Coq Require Import List NArith ZArith Bool Arith Lia.
 From VF Require Import Base.Sx PyVal.Val PyVal.ValProofs PyVal.Codec Merge.Merge Yaml.Target Yaml.TargetProofs Yaml.Exec
-  Yaml.Cache Yaml.CacheProofs C12.Entry.
+  Yaml.ExecProofs Yaml.Cache Yaml.CacheProofs Yaml.Validity Yaml.HistoryProofs C12.Entry.
 Import ListNotations.
 
 Lemma table_fun_in {A} (tbl : list (str * res A)) s a : table_fun tbl s = Ok a -> In (s, Ok a) tbl.
@@ -21,41 +21,80 @@ Qed.
 Lemma exc_eqb_refl e : exc_eqb e e = true.
 Proof. apply Z.eqb_refl. Qed.
 
-Lemma empty_case_spec C render_o yload matches t :
-  empty_pieces_case C render_o yload matches t = true -> get_data_spec C render_o yload matches t = Ok [].
-Proof.
-  unfold empty_pieces_case, get_data_spec. destruct (spec_top C render_o yload matches t) as [[[|x r]|]|]; try discriminate.
-  destruct (spec_pieces C render_o yload matches t) as [[|p ps]|]; try discriminate. reflexivity.
-Qed.
+Section Model.
+  Variable c : case.
+  Hypothesis Hv : cV c = current_variants.
+  Hypothesis Hy : forallb res_wf (cYload c) = true.
 
-(* a result whose data is the (variant-aware) specification passes the data clause *)
-Lemma data_clause_ok nm c q r :
-  cV c = current_variants ->
-  step_data r = spec_result (cV c) (cC c) (table_fun (q_render q)) (table_fun (cYload c)) (table_fun (q_match q)) (q_tree q) ->
-  data_clause nm c q r = [].
-Proof.
-  intros Hv E. unfold data_clause, spec_of. unfold spec_result in E. rewrite Hv in E. cbn [empty_raises current_variants andb] in E.
-  destruct r as [[d v]|e]; cbn [step_data] in E; rewrite <- E.
-  - unfold same_dict. now rewrite same_refl.
-  - now rewrite exc_eqb_refl.
-Qed.
+  Notation yl := (table_fun (cYload c)).
+  Definition sf (k : call) : res (dict * str) := spec_full_of_call current_variants (cC c) model_H yl k.
 
-Lemma version_clause_same r : version_clause (r, r) = [].
-Proof. destruct r as [[d v]|e]; cbn [version_clause]; [now rewrite str_eqb_refl | now rewrite exc_eqb_refl]. Qed.
+  Lemma mk_faithful q : faithful (mo_of c) (mk_call c q).
+  Proof. reflexivity. Qed.
+  Lemma all_faithful qs : Forall (faithful (mo_of c)) (map (mk_call c) qs).
+  Proof. apply Forall_forall. intros k Hk. apply in_map_iff in Hk as [q [<- _]]. apply mk_faithful. Qed.
 
-(* with cache_size 0 the per-call clauses hold for the model on every history *)
-Lemma holds_steps_null c : valid c -> cCap c = 0%nat -> holds_steps c (cCalls c) (run_model c) = [].
+  (* the long-lived source and the new source both return the specified data and version *)
+  Lemma run_model_spec : run_model c = List.combine (map sf (map (mk_call c) (cCalls c))) (map sf (map (mk_call c) (cCalls c))).
+  Proof.
+    unfold run_model. rewrite Hv. f_equal.
+    - apply (lru_history_transparent current_variants (cC c) model_H yl (mo_of c) eq_refl eq_refl (yload_table_wf _ Hy)
+               model_H_inj model_H_nobar model_H_noplus model_H_nonempty). apply all_faithful.
+    - apply map_ext_in. intros k Hk. apply in_map_iff in Hk as [q [<- _]].
+      apply (fresh_full current_variants (cC c) model_H yl (mo_of c) eq_refl eq_refl (yload_table_wf _ Hy)
+               model_H_inj model_H_nobar model_H_noplus model_H_nonempty). apply mk_faithful.
+  Qed.
+
+  Lemma data_clause_ok nm q : data_clause nm c q (sf (mk_call c q)) = [].
+  Proof.
+    unfold data_clause, spec_of. rewrite Hv.
+    pose proof (spec_full_data current_variants (cC c) model_H (table_fun (q_render q)) yl (mo_of c (q_sys q) (q_pv q)) (q_tree q)) as D.
+    unfold spec_result in D. cbn [empty_raises current_variants andb] in D.
+    unfold sf, spec_full_of_call. cbn [mk_call k_render k_match k_tree].
+    destruct (spec_full current_variants (cC c) model_H (table_fun (q_render q)) yl (mo_of c (q_sys q) (q_pv q)) (q_tree q)) as [[d v]|e];
+      cbn [fst] in D; rewrite <- D.
+    - unfold same_dict. now rewrite same_refl.
+    - now rewrite exc_eqb_refl.
+  Qed.
+
+  Lemma version_clause_same r : version_clause (r, r) = [].
+  Proof. destruct r as [[d v]|e]; cbn [version_clause]; [now rewrite str_eqb_refl | now rewrite exc_eqb_refl]. Qed.
+
+  Lemma holds_steps_ok : forall qs,
+    holds_steps c qs (List.combine (map sf (map (mk_call c) qs)) (map sf (map (mk_call c) qs))) = [].
+  Proof.
+    induction qs as [|q r IH]; cbn [map List.combine holds_steps]; [reflexivity|]. cbn [fst snd].
+    now rewrite !data_clause_ok, version_clause_same, IH.
+  Qed.
+
+  Lemma map_fst_combine_same {A} (l : list A) : map fst (List.combine l l) = l.
+  Proof. induction l as [|x r IH]; cbn [List.combine map fst]; [reflexivity | now rewrite IH]. Qed.
+
+  Lemma tracks_ok k k' : faithful (mo_of c) k -> faithful (mo_of c) k' -> tracks (sf k) (sf k') = true.
+  Proof.
+    intros Hf Hf'. unfold tracks. destruct (sf k) as [[d v]|e] eqn:E; [|reflexivity].
+    destruct (sf k') as [[d' v']|e'] eqn:E'; [|reflexivity].
+    destruct (str_eqb v v') eqn:Ev; [|reflexivity]. cbn [negb orb]. apply str_eqb_eq in Ev.
+    rewrite (spec_version_tracks current_variants (cC c) model_H yl (mo_of c) eq_refl eq_refl (yload_table_wf _ Hy)
+               model_H_inj model_H_nobar model_H_noplus model_H_nonempty k k' d v d' v' Hf Hf' E E' Ev).
+    unfold same_dict. apply same_refl.
+  Qed.
+
+  Lemma holds_model_sec : holds c (run_model c) = [].
+  Proof.
+    unfold holds. rewrite run_model_spec, holds_steps_ok. cbn [app]. unfold version_tracks.
+    rewrite map_fst_combine_same.
+    assert (G : forallb (fun a => forallb (tracks a) (map sf (map (mk_call c) (cCalls c)))) (map sf (map (mk_call c) (cCalls c))) = true).
+    { apply forallb_forall. intros a Ha. apply forallb_forall. intros b Hb.
+      apply in_map_iff in Ha as [k [<- Hk]]. apply in_map_iff in Hb as [k' [<- Hk']].
+      apply in_map_iff in Hk as [q [<- _]]. apply in_map_iff in Hk' as [q' [<- _]].
+      apply tracks_ok; apply mk_faithful. }
+    now rewrite G.
+  Qed.
+End Model.
+
+Lemma holds_model c : valid c -> holds c (run_model c) = [].
 Proof.
-  unfold valid, validb. intros Hv Hc. apply andb_true_iff in Hv as [Hv Hy]. apply variants_eqb_eq in Hv.
-  unfold run_model. rewrite Hc, null_history.
-  assert (G : forall qs, holds_steps c qs
-     (List.combine (map (fresh_result (cV c) (cC c) model_H (table_fun (cYload c))) (map mk_call qs))
-                   (map (fresh_result (cV c) (cC c) model_H (table_fun (cYload c))) (map mk_call qs))) = []).
-  { induction qs as [|q r IH]; cbn [map List.combine holds_steps]; [reflexivity|]. cbn [fst snd].
-    assert (D : forall nm, data_clause nm c q (fresh_result (cV c) (cC c) model_H (table_fun (cYload c)) (mk_call q)) = []).
-    { intros nm. apply data_clause_ok; [assumption|].
-      pose proof (fresh_data (cV c) (cC c) model_H (table_fun (cYload c))) as F. rewrite Hv in *.
-      apply (F eq_refl (yload_table_wf _ Hy) (mk_call q)). }
-    now rewrite !D, version_clause_same, IH. }
-  apply G.
+  unfold valid, validb. intros Hv. apply andb_true_iff in Hv as [Hv Hy]. apply variants_eqb_eq in Hv.
+  now apply holds_model_sec.
 Qed.
